@@ -35,7 +35,7 @@ using UG = LabeledUndirectedGraph<L>;
 L lab(uint64_t stamp) { return LT<L>::make(stamp); }
 
 struct Counters {
-    uint64_t remutated = 0, graphs = 0, iterSteps = 0, conversions = 0, ctorChecks = 0, copies = 0, subsets = 0, remapChecks = 0, labelReads = 0, filesWritten = 0, emptyGraphs = 0,
+    uint64_t rejectedInBetween = 0, remutated = 0, graphs = 0, iterSteps = 0, conversions = 0, ctorChecks = 0, copies = 0, subsets = 0, remapChecks = 0, labelReads = 0, filesWritten = 0, emptyGraphs = 0,
              zeroVertex = 0;
     ObsCounters oc;
 } C;
@@ -200,7 +200,9 @@ template <class G> void c08(Reporter &R, const std::string &cls, const GraphSpec
     if (s.n > 0) {
         for (int round = 0; round < 3; ++round) {
             VertexIndex i = r.u(s.n), j = r.u(s.n);
-            if (round == 0) i = 0; // a source below every vertex that had an edge so far
+            if (round == 0) i = 0;        // below every vertex that had an edge so far
+            if (round == 1) i = s.n - 1;  // above every vertex that had an edge so far
+            if (r.chance(1, 2)) std::swap(i, j); // named in either orientation
             Edge k = canon(s.directed, i, j);
             if (b.x.e.count(k)) {
                 b.g.removeEdge(i, j);
@@ -388,17 +390,36 @@ template <class G> void c09(Reporter &R, const std::string &cls, const GraphSpec
 
 // ---------------------------------------------------------------- C10
 template <class G> void c10(Reporter &R, const std::string &cls, const GraphSpec &s, unsigned variant, uint64_t idx) {
-    if (s.n > 7) return;
     Rng r = caseRng(R.args.seed, hashStr(cls + "c10"), idx);
     auto b = build<G>(s, variant, r, 37);
     ++C.graphs;
     unsigned n = s.n;
-    for (uint64_t mask = 0; mask < (1ULL << n); ++mask) {
+    // up to 7 vertices: ALL 2^n subsets; larger graphs: 48 seeded subsets of varied density (plus the empty and the full set)
+    uint64_t rounds = n <= 7 ? (1ULL << n) : 50;
+    for (uint64_t mask = 0; mask < rounds; ++mask) {
         std::unordered_set<VertexIndex> S;
         // insertion order into the set varies the iteration order of the unordered_set
         std::vector<VertexIndex> members;
-        for (unsigned v = 0; v < n; ++v)
-            if (mask >> v & 1) members.push_back(v);
+        if (n <= 7) {
+            for (unsigned v = 0; v < n; ++v)
+                if (mask >> v & 1) members.push_back(v);
+        } else if (mask == 1) {
+            for (unsigned v = 0; v < n; ++v) members.push_back(v);
+        } else if (mask > 1) {
+            unsigned num = 1 + r.u(8), den = 9;
+            for (unsigned v = 0; v < n; ++v)
+                if (r.chance(num, den)) members.push_back(v);
+        }
+        if (mask % 7 == 3 && n > 0) {
+            // a rejected call in between (a vertex outside the graph after some inside it) must leave no trace on later calls
+            std::unordered_set<VertexIndex> bad;
+            bad.insert(r.u(n));
+            bad.insert(n + r.u(40));
+            bad.insert(r.u(n));
+            try { (void)alg::getSubgraphWithRemap(b.g, bad); } catch (std::out_of_range &) {}
+            try { (void)alg::getSubgraph(b.g, bad); } catch (std::out_of_range &) {}
+            ++C.rejectedInBetween;
+        }
         if (variant >= 1)
             for (size_t i = members.size(); i > 1; --i) std::swap(members[i - 1], members[r.u((unsigned)i)]);
         for (auto v : members) S.insert(v);
@@ -458,6 +479,7 @@ void flush(Reporter &R) {
     C.oc.flush(R);
     R.count("graphs_built", C.graphs);
     R.count("enumerate_mutate_enumerate_rounds", C.remutated);
+    R.count("rejected_subgraph_calls_in_between", C.rejectedInBetween);
     R.count("edge_iteration_steps", C.iterSteps);
     R.count("conversions_checked", C.conversions);
     R.count("constructor_checks", C.ctorChecks);
